@@ -803,6 +803,10 @@ fn rnd_case(rng: &mut Rng, s: &str) -> String {
     }
 }
 fn sp(rng: &mut Rng) -> &'static str {
+    if rng.chance(1, 16) {
+        // Unicode white space is not a separator of the documented command language
+        return *rng.pick(&["\u{A0}", "\u{3000}", "\u{2028}", "\u{2003}", " \u{A0}", "\u{85}", "\u{B}", "\u{C}"]);
+    }
     *rng.pick(&[" ", " ", "  ", "\t", " \t "])
 }
 fn osp(rng: &mut Rng) -> &'static str {
